@@ -209,6 +209,9 @@ def body_gradients(case, ctx):
             # stencil); the objective's sensitivity to it is (|z| + 1)/sigma for -log EI and 1 for the confidence bound
             sens = {"EI": (abs(z) + 1) / sig[0], "UCB": 1.0, "MaxVar": 0.0}[case["acq"]]
             floor += 8 * EPS * float(np.max(np.abs(y))) * sens / h
+            # the stencil's abscissae q +- h and the differences q - x_j carry eps*|coordinate| each: relative error
+            # eps*|coordinate|/h in the step, i.e. that fraction of the slope
+            floor += 8 * EPS * max(abs(q[i]), float(np.max(np.abs(X[:, i])))) / h * float(np.max(np.abs(grad)))
             if floor > 1e-3 * max(np.max(np.abs(grad)), 1e-300):
                 ctx.inconclusive["stencil-roundoff-too-large"] += 1
                 continue
